@@ -491,6 +491,27 @@ func checkFrameHelpers(p *load.Program, r *kit.Report, rule string) {
 			}
 		}
 		r.Check(bad == "", rule, "readMessage/exact", posOf(p, f.Blocks[0].Instrs[0]), "success ⇒ exactly header.Length payload bytes were read", bad)
+		// the message is decoded from exactly those bytes: the buffer they are copied into is
+		// empty before the copy — created in readMessage, or Reset on every path to the copy. A
+		// buffer that comes from elsewhere (a pool, a field) can still hold what an earlier message's
+		// decoder left unread; the next message would be decoded from stale bytes.
+		if cc, ok := consuming.(*ssa.Call); ok && kit.CallID(cc) == "io.CopyN" {
+			badB := ""
+			dst := kit.Strip(cc.Call.Args[0])
+			if al, isAlloc := dst.(*ssa.Alloc); !isAlloc || al.Parent() != f {
+				var resets []ssa.Instruction
+				for _, c := range kit.CallsTo(f, "bytes.Buffer.Reset") {
+					if kit.Strip(c.Common().Args[0]) == dst {
+						resets = append(resets, c)
+					}
+				}
+				pre := kit.Reach(f, []kit.Pt{kit.Entry(f)}, kit.Opts{StopAt: kit.InstrSet(resets...)})
+				if len(resets) == 0 || pre.Has(cc) {
+					badB = "the payload is copied into a buffer that is neither created in readMessage nor Reset before the copy (" + describe(dst) + "): bytes a previous decoder left unread are decoded as the start of this message"
+				}
+			}
+			r.Check(badB == "", rule, "readMessage/fresh-buffer", posOf(p, cc), "the payload buffer is empty before the copy", badB)
+		}
 	}
 	// DiscardInput
 	if f := fn(p, r, rule, R, "DiscardInput"); f != nil {
